@@ -58,8 +58,11 @@ def face_normals(mesh : SurfaceMesh, name="normals", persistent:bool=True, dense
     else:
         normals = ArrayAttribute(float, len(mesh.faces), 3) if dense else Attribute(float, 3)
     for iT,T in enumerate(mesh.faces):
-        pA,pB,pC = (mesh.vertices[u] for u in T[:3])
-        normals[iT] = Vec.normalized(geom.cross(pB-pA, pC-pA))
+        pA = mesh.vertices[T[0]]
+        N = Vec(0.,0.,0.) # area vector of the polygon: independent of the first corner, valid for non convex faces
+        for i in range(1,len(T)-1):
+            N = N + geom.cross(mesh.vertices[T[i]]-pA, mesh.vertices[T[i+1]]-pA)
+        normals[iT] = Vec.normalized(N)
     return normals
 
 @allowed_mesh_types(SurfaceMesh, VolumeMesh)
